@@ -358,7 +358,9 @@ func (self *Compiler) compileExpr(node ast.AnalyzedExpression) {
 			self.place = false
 
 			if node.Operator != pAst.StdAssignOperatorKind {
+				// The current value of the target is an operand like any other: it is read before the right hand side runs.
 				self.insert(newPrimitiveInstruction(Opcode_Duplicate), node.Range)
+				self.insert(newPrimitiveInstruction(Opcode_Load), node.Range)
 				self.compileOperand(node.Rhs, 2)
 				self.arithmeticHelper(node.Operator.IntoInfixOperator(), node.Range)
 			} else {
